@@ -30,7 +30,7 @@ RULE = ('Random DAGs over Config/Partial/ArgFactory with positional + keyword ar
         'comparison of the untouched side. Non-trivial: >=2 Buildables; distinct = (DAG sketch, '
         'copy kind).')
 RULE_ADDITIONS = (' Added by the rounds of seeded changes (DESIGN 9.7): ' +
-                  "tags on unset arguments; uncopyable leaves (refuse or faithful); DictConfig / NamespaceConfig / pinned subclass nodes; copy_with with equal-but-distinct overrides; deep copies report the callable's own default objects")
+                  "tags on unset arguments; uncopyable leaves (refuse or faithful); DictConfig / NamespaceConfig / pinned subclass nodes; copy_with with equal-but-distinct overrides; deep copies report the callable's own default objects; annotation tags cleared / replaced on the original before copying")
 RULE = RULE + RULE_ADDITIONS
 ASSUMPTIONS = [
     'HistoryEntry, Location, signature objects, callables, tag classes, NO_VALUE and tuples '
